@@ -271,3 +271,42 @@ Proof.
   apply Forall_forall. intros y _. split; reflexivity.
 Qed.
 Print Assumptions ff_cursor_wf.
+
+(** * (i) the committed root is not empty when the content is not, and W3 modulo [ff t'] *)
+Theorem commit_tree_root_nonempty ps fill fuel t order t' evs :
+  aligned t -> flat t <> [] -> commit_tree ps fill fuel t order = Ok (t', evs) -> ins_of t' <> [].
+Proof.
+  intros A Ne H. destruct (commit_tree_flat _ _ _ _ _ _ _ A H) as [F [d' W']].
+  intros E. destruct (wf_empty _ _ W' E) as [_ F0]. congruence.
+Qed.
+
+(** End to end, with the ONE open obligation made explicit: under the P4 hypotheses, global key order and non-empty content,
+    if the committed tree has no stale separator ([ff t']) then it satisfies the cursor model's key-order well-formedness.
+    [ff t'] is what remains to be derived from (a)/(b) on t (not proved). *)
+Theorem commit_tree_cursor_wf_if_ff ps fill fuel t order t' evs d :
+  wf d t -> (d < fuel)%nat -> closed false t -> NoDup (ids t) -> good order t ->
+  isorted (flat t) -> flat t <> [] ->
+  commit_tree ps fill fuel t order = Ok (t', evs) -> ff t' -> Cursor.wf (to_ctree t') = true.
+Proof.
+  intros W L C ND G Srt Ne H F.
+  destruct (commit_tree_no_empty _ _ _ _ _ _ _ _ W L C ND G H) as [G' A'].
+  destruct (commit_tree_flat _ _ _ _ _ _ _ (ex_intro _ d W) H) as [Fl _].
+  apply ff_cursor_wf; [exact A' | | exact F | | exact G'].
+  - unfold isorted in *. rewrite Fl. exact Srt.
+  - apply (commit_tree_root_nonempty ps fill fuel t order t' evs); auto. exists d; auto.
+Qed.
+Print Assumptions commit_tree_cursor_wf_if_ff.
+
+(** the case where nothing is open: the committed root is a leaf (small buckets) - [ff] is trivial there *)
+Corollary commit_tree_cursor_wf_leaf ps fill fuel t order t' evs :
+  aligned t -> isorted (flat t) -> commit_tree ps fill fuel t order = Ok (t', evs) ->
+  h_leaf (hd_of t') = true -> Cursor.wf (to_ctree t') = true.
+Proof.
+  intros A Srt H Lf. destruct (commit_tree_flat _ _ _ _ _ _ _ A H) as [Fl [d' W']].
+  apply ob_cursor_wf; [exists d'; auto|].
+  destruct (wf_leaf_inv _ _ W' Lf) as (-> & K & E). destruct t' as [h il kids]. cbn [hd_of kids_of ins_of] in *. subst kids.
+  constructor; auto.
+  - rewrite str_inc_sorted. rewrite <- E. unfold isorted, keys_of in Srt. now rewrite Fl.
+  - apply Forall_forall. intros x _. split; reflexivity.
+Qed.
+Print Assumptions commit_tree_cursor_wf_leaf.
